@@ -10,7 +10,9 @@
 package simrt
 
 import (
+	"os"
 	"runtime"
+	"strconv"
 	"strings"
 	"sync"
 )
@@ -95,6 +97,9 @@ type taskState struct {
 	blocked    bool
 	blockedGen int64
 	steps      int64
+	polling    bool   // parked in the default clause of a rewritten select
+	pollGen    int64  // unlockGen+1 when this task last looked at its select cases (0 = never)
+	where      string // site of the last Blocked call (debugging aid)
 }
 
 type sim struct {
@@ -303,7 +308,12 @@ func (s *sim) event(site, kind string, choice int64) {
 	if s.cfg.Trace {
 		s.stats.Trace = append(s.stats.Trace, Event{Seq: s.stats.Events, Task: s.turn, Site: site, Kind: kind, Choice: choice})
 	}
+	if debugEvents {
+		os.Stderr.WriteString("EV task " + strconv.Itoa(s.turn) + " " + kind + " " + strconv.FormatInt(choice, 10) + " " + site + "\n")
+	}
 }
+
+var debugEvents = os.Getenv("VERIF_SIMDEBUG") == "2"
 
 //go:norace
 func (s *sim) fault(kind string) { s.faults.add(kind, 1) }
@@ -450,7 +460,7 @@ func Run(fns []func()) {
 		s.tasks = nil
 		s.turn = -2
 		s.inline = true
-		fns[0]()
+		runTask(fns[0]) // swallows the abort signal of a promoted run
 		s.inline = false
 		if s.tasks != nil {
 			s.exitTask(0)
@@ -604,6 +614,9 @@ func (s *sim) exitTask(id int) {
 	r := s.runnable(id, false)
 	if len(r) == 0 {
 		// the remaining tasks are all parked on locks: deadlock
+		if s.unsupportedStall() {
+			unsupported("every task is parked and two or more of them poll a select statement: they may be waiting for each other over an unbuffered channel")
+		}
 		s.stats.Deadlock = true
 		s.aborted = true
 		s.stats.Aborted = true
@@ -724,8 +737,13 @@ func Blocked(site string) {
 	t := &s.tasks[id]
 	t.blocked = true
 	t.blockedGen = s.unlockGen
+	t.where = site
 	r := s.runnable(id, false)
 	if len(r) == 0 {
+		if s.unsupportedStall() {
+			unsupported("every task is parked and two or more of them poll a select statement (" + site + "): they may be waiting for each other over an unbuffered channel")
+		}
+		s.debugStall(site)
 		s.stats.Deadlock = true
 		s.aborted = true
 		s.stats.Aborted = true
@@ -797,4 +815,18 @@ func Draw(n uint32) uint32 {
 		return 0
 	}
 	return s.draw(n)
+}
+
+// debugStall prints the scheduler state when VERIF_SIMDEBUG is set (development aid).
+//
+//go:norace
+func (s *sim) debugStall(site string) {
+	if os.Getenv("VERIF_SIMDEBUG") == "" {
+		return
+	}
+	os.Stderr.WriteString("STALL at " + site + " turn " + strconv.Itoa(s.turn) + " gen " + strconv.FormatInt(s.unlockGen, 10) + "\n")
+	for i := range s.tasks {
+		t := &s.tasks[i]
+		os.Stderr.WriteString("  task " + strconv.Itoa(i) + " done=" + strconv.FormatBool(t.done) + " blocked=" + strconv.FormatBool(t.blocked) + " gen=" + strconv.FormatInt(t.blockedGen, 10) + " polling=" + strconv.FormatBool(t.polling) + " at " + t.where + "\n")
+	}
 }
